@@ -31,10 +31,27 @@ class Raised(Exception):
         self.kind = kind
 
 
+class Stopped(Exception):
+    """(lenient mode) the walk met a statement it cannot interpret; `Interp.stopped_at` is that statement."""
+
+
+class _Poison:
+    def __repr__(self):
+        return "POISON"
+
+
+POISON = _Poison()
+
+
 class Interp:
     def __init__(self, leaf: Optional[Callable[[ast.AST, dict], object]] = None,
-                 lookup: Optional[Callable[[ast.Call], Optional[ast.FunctionDef]]] = None, max_steps: int = 20000, tensors: bool = False):
+                 lookup: Optional[Callable[[ast.Call], Optional[ast.FunctionDef]]] = None, max_steps: int = 20000, tensors: bool = False,
+                 lenient: bool = False):
         self.user_leaf = leaf
+        # lenient: an assignment whose value is outside the fragment binds its targets to POISON (any later use of them is outside
+        # the fragment); a test / loop that cannot be evaluated stops the walk with `Stopped`, keeping the environment reached so far
+        self.lenient = lenient
+        self.stopped_at: Optional[ast.stmt] = None
         self.tensors = tensors  # expressions over exact tensor values (sa/teval.py) instead of integers
         self.lookup = lookup
         self.steps = 0
@@ -115,6 +132,19 @@ class Interp:
         return val
 
     # ---- statements ----------------------------------------------------------------------------------------------------
+    def _poison_targets(self, t: ast.AST, env: dict):
+        if isinstance(t, ast.Name):
+            env[t.id] = POISON
+        elif isinstance(t, ast.Attribute):
+            env[u(t)] = POISON
+        elif isinstance(t, (ast.Tuple, ast.List)):
+            for el in t.elts:
+                self._poison_targets(el, env)
+        elif isinstance(t, ast.Subscript):
+            self._poison_targets(t.value, env)
+        elif isinstance(t, ast.Starred):
+            self._poison_targets(t.value, env)
+
     def run(self, fn: ast.FunctionDef, env: dict):
         body = fn.body
         if body and isinstance(body[0], ast.Expr) and isinstance(body[0].value, ast.Constant) and isinstance(body[0].value.value, str):
@@ -125,6 +155,8 @@ class Interp:
             return "return", r.value
         except Raised as r:
             return "raise", r.kind
+        except Stopped:
+            return "stopped", self.stopped_at
         return "return", None
 
     def _store(self, t: ast.AST, v, env: dict):
@@ -145,6 +177,23 @@ class Interp:
             self.steps += 1
             if self.steps > self.max_steps:
                 raise NotEvaluable("step budget")
+            if self.lenient and self.depth == 0:
+                try:
+                    self._stmt(st, env)
+                except NotEvaluable:
+                    if isinstance(st, (ast.Assign, ast.AnnAssign, ast.AugAssign)):
+                        for t in (st.targets if isinstance(st, ast.Assign) else [st.target]):
+                            self._poison_targets(t, env)
+                        continue
+                    if isinstance(st, ast.Expr):
+                        continue
+                    self.stopped_at = st
+                    raise Stopped()
+                continue
+            self._stmt(st, env)
+
+    def _stmt(self, st: ast.stmt, env: dict):
+        if True:
             if isinstance(st, ast.Assign):
                 v = self.eval(st.value, env)
                 for t in st.targets:
@@ -195,6 +244,6 @@ class Interp:
                 if isinstance(st.value, ast.Call) and self.lookup is not None and self.lookup(st.value) is not None:
                     self.call(self.lookup(st.value), st.value, env)
             elif isinstance(st, ast.Pass):
-                continue
+                return
             else:
                 raise NotEvaluable(type(st).__name__)
